@@ -8,6 +8,8 @@
 #include <string.h>
 #include <unistd.h>
 #include <inttypes.h>
+#include <sys/wait.h>
+#include <time.h>
 
 #define MAXH 16
 static PShmBuffer *hs[MAXH];
@@ -37,6 +39,47 @@ static void drop_all (void) {
 		p_shm_buffer_free (hs[i]); hs[i] = NULL;
 	}
 	if (spy) { if (!owned) p_shm_take_ownership (spy); p_shm_free (spy); spy = NULL; }
+}
+
+/* supporting run (failing-input search for the atomicity clause): a producer process and a consumer
+ * process, each on its own handle of one name, stream position-unique bytes through a buffer that is
+ * kept nearly full; every byte received must be the next byte of the stream. */
+static unsigned char stream_byte (unsigned long long pos) { return (unsigned char) ((pos * 2654435761ULL) >> 13); }
+
+static const char *stress (size_t cap, size_t chunk, unsigned long long total) {
+	char nm[128]; snprintf (nm, sizeof nm, "pvsbx-%d-%d", (int) getpid (), gen++);
+	PShmBuffer *c = p_shm_buffer_new (nm, cap, NULL);
+	if (!c) return "stress setup-failed";
+	pid_t pid = fork ();
+	if (pid == 0) {
+		PShmBuffer *p = p_shm_buffer_new (nm, cap, NULL);
+		unsigned char *b = malloc (chunk);
+		unsigned long long sent = 0;
+		time_t t0 = time (NULL);
+		while (p && sent < total && time (NULL) - t0 < 20) {
+			size_t n = chunk; if (n > total - sent) n = (size_t) (total - sent);
+			for (size_t i = 0; i < n; ++i) b[i] = stream_byte (sent + i);
+			pssize r = p_shm_buffer_write (p, b, n, NULL);
+			if (r < 0) _exit (3);
+			if (r > 0) sent += (unsigned long long) r;
+		}
+		if (p) p_shm_buffer_free (p);
+		_exit (sent == total ? 0 : 2);
+	}
+	unsigned char *b = malloc (chunk);
+	unsigned long long got = 0; const char *res = "stress ok";
+	time_t t0 = time (NULL);
+	while (got < total && time (NULL) - t0 < 25) {
+		pint r = p_shm_buffer_read (c, b, chunk, NULL);
+		if (r < 0) { res = "stress read-error"; break; }
+		for (int i = 0; i < r; ++i) if (b[i] != stream_byte (got + (unsigned long long) i)) { res = "stress MIXED-BYTES"; got = total; break; }
+		if (got < total) got += (unsigned long long) r;
+	}
+	int st = 0; waitpid (pid, &st, 0);
+	if (!strcmp (res, "stress ok") && (!WIFEXITED (st) || WEXITSTATUS (st) != 0)) res = "stress producer-failed-or-timeout";
+	free (b);
+	p_shm_buffer_take_ownership (c); p_shm_buffer_free (c);
+	return res;
 }
 
 int main (void) {
@@ -72,6 +115,11 @@ int main (void) {
 		} else if (!strcmp (op, "clr") && n == 2 && h < MAXH && hs[h]) { p_shm_buffer_clear (hs[h]); puts ("ok"); }
 		else if (!strcmp (op, "used") && n == 2 && h < MAXH && hs[h]) printf ("%lld\n", (long long) p_shm_buffer_get_used_space (hs[h], NULL));
 		else if (!strcmp (op, "free") && n == 2 && h < MAXH && hs[h]) printf ("%lld\n", (long long) p_shm_buffer_get_free_space (hs[h], NULL));
+		else if (!strcmp (op, "stress") && n == 3) {
+			/* stress CAP CHUNK:TOTAL */
+			size_t chunk = strtoull (arg, NULL, 10); char *c2 = strchr (arg, ':');
+			puts (stress ((size_t) h, chunk, c2 ? strtoull (c2 + 1, NULL, 10) : 1000000ULL));
+		}
 		else if (!strcmp (op, "pos") && n == 1) {
 			if (!spy) puts ("none");
 			else { size_t rw[2]; memcpy (rw, p_shm_get_address (spy), sizeof rw); printf ("%zu %zu\n", rw[0], rw[1]); }
